@@ -170,6 +170,59 @@ func RCodec(c *core.Ctx) {
 		ok := !readerLabels[r] && !(r >= '0' && r <= '7') && !isWordCharASCII(r)
 		c.Check(ok, fmt.Sprintf("escape / `\\%c` is read back literally", r), esc.Pos(), "the reader's default arm returns the character unchanged only if it is not an escape letter, not an octal digit and not a word character (label=%v)", readerLabels[r])
 	}
+	// ... and the reader's default arm refuses a character only for being a word character: everything
+	// escape() writes behind a bare backslash is punctuation or a blank, so an error return of that arm
+	// must stand under a word-character test of the escaped character
+	var rdDefault *ast.CaseClause
+	for _, st := range rdSwitch.Body.List {
+		if cc := st.(*ast.CaseClause); cc.List == nil {
+			rdDefault = cc
+		}
+	}
+	if rdDefault == nil {
+		c.Bad("scanCharEscape / default arm exists", rdSwitch.Pos(), "the reader has no arm for a backslash followed by an ordinary character")
+	} else {
+		nerr := 0
+		var visit func(n ast.Node, guards []ast.Expr)
+		visit = func(n ast.Node, guards []ast.Expr) {
+			switch x := n.(type) {
+			case nil:
+			case *ast.BlockStmt:
+				for _, st := range x.List {
+					visit(st, guards)
+				}
+			case *ast.IfStmt:
+				visit(x.Body, append(append([]ast.Expr(nil), guards...), x.Cond))
+				if x.Else != nil {
+					visit(x.Else, guards)
+				}
+			case *ast.ReturnStmt:
+				if len(x.Results) == 2 {
+					if tv, ok := info.Types[x.Results[1]]; ok && tv.IsNil() {
+						return
+					}
+					nerr++
+					wordTest := false
+					for _, g := range guards {
+						for _, cj := range conjuncts(g) {
+							ast.Inspect(cj, func(y ast.Node) bool {
+								if call, ok := y.(*ast.CallExpr); ok {
+									if fn := core.Callee(info, call); fn != nil && strings.Contains(core.BaseName(fn), "WordChar") {
+										wordTest = true
+									}
+								}
+								return true
+							})
+						}
+					}
+					c.Check(wordTest, fmt.Sprintf("scanCharEscape / error return #%d of the default arm is for word characters only", nerr), x.Pos(), "this error is returned for escaped characters that are not letters or digits: Escape writes `\\ `, `\\#`, `\\.` … for the metacharacters, and a pattern it produced must compile under every option set")
+				}
+			}
+		}
+		for _, st := range rdDefault.Body {
+			visit(st, nil)
+		}
+	}
 	// printable, not in meta -> written raw: must not be the backslash itself (it is in meta) — covered above
 
 	// ---- meta covers the parser's special characters
